@@ -219,7 +219,8 @@ def gen_sections(rng, n):
     for _ in range(max(10, n // 5)):
         entries = []
         for i, path in enumerate(rng.sample(["x86_64/os/images/boot.iso", "i386/os/images/boot.iso", "images/boot.iso", "os/images/boot.iso",
-                                             "tree/os/repodata/repomd.xml", "repodata/repomd.xml", "a/os/b/os/c"], rng.randint(2, 4))):
+                                             "tree/os/repodata/repomd.xml", "repodata/repomd.xml", "a/os/b/os/c",
+                                             "/mnt/tree/x86_64/os/updates/os/images/boot.iso", "/srv/os/LiveOS/squashfs.img", "/no/marker/file"], rng.randint(2, 4))):
             L = rng.choice([32, 40, 64])
             entries.append([path, rng.choice(["", "sha256:", "md5:"]) + rstr(rng, hexd, L, L)])
         text = BASE00 + "[checksums]\n" + "".join("%s = %s\n" % (p, v) for p, v in entries) + "\n"
